@@ -40,4 +40,10 @@ theorem name_masks_are_source : nameMask = nameMaskC ∧ nameNoCode = nameNoCode
     compress_function_tables overflows at 2^8; function indices are 16 bit -/
 theorem cmp_marker_is_byte_max : cmpMarker + 1 = 2 ^ (8 * cmpIndexBytes) ∧ fnIndexBytes = 2 := by decide
 
+/-- the literals of compress_function_tables / find_func_entry (regenerated from their ASTs) are the ones the model of
+    the index-byte loop (`fillGo`: marker, `j + 1 == 256`, `j := 255`) is written with -/
+theorem cmp_literals_are_source :
+    cmpMarkerGen = cmpMarker ∧ cmpOverflowAtGen = 256 ∧ cmpJAfterOverflowGen = 255 ∧ cmpOverflowAtGen = cmpMarker + 1 := by
+  decide
+
 end NV.C07
